@@ -155,6 +155,13 @@ Proof.
   destruct n as [|[|m]]; [reflexivity|reflexivity|].
   cbn [Nat.even]. rewrite H by lia. replace (Z.of_nat (S (S m))) with (Z.of_nat m + 1 * 2) by lia. rewrite Z.mod_add by lia. reflexivity.
 Qed.
+Lemma last_app_r {A} (l1 l2:list A) d : l2 <> [] -> last (l1 ++ l2) d = last l2 d.
+Proof.
+  intros H. induction l1 as [|x r IH]; [reflexivity|].
+  change ((x :: r) ++ l2) with (x :: (r ++ l2)). destruct (r ++ l2) as [|y t] eqn:E.
+  - destruct r; [cbn in E; congruence|discriminate].
+  - exact IH.
+Qed.
 Lemma ack_add_pack st cs c : st <> [] -> Forall code_ok cs ->
   ack_add (st ++ pack cs) (Z.of_nat (length cs)) c = st ++ pack (cs ++ [c]).
 Proof.
@@ -164,7 +171,7 @@ Proof.
   rewrite Hd, andb_true_r. destruct (Nat.even (length cs)) eqn:E.
   - rewrite (pack_even_app _ _ E), app_assoc. reflexivity.
   - destruct (pack_odd_app cs c E F) as [P NE]. rewrite P.
-    rewrite removelast_app by exact NE. rewrite last_app by exact NE. rewrite app_assoc. reflexivity.
+    rewrite removelast_app by exact NE. rewrite last_app_r by exact NE. rewrite app_assoc. reflexivity.
 Qed.
 Lemma ack_all_pack st c : st <> [] -> code_ok c -> forall k cs, Forall code_ok cs ->
   ack_all k (st ++ pack cs) (Z.of_nat (length cs)) c = st ++ pack (cs ++ repeat c k).
@@ -179,7 +186,7 @@ Lemma unpack_pack cs : Forall code_ok cs -> unpack (length cs) (pack cs) = Some 
 Proof.
   induction cs as [| a | a b l IH] using list_ind2; intros F; [reflexivity| |].
   - inversion_clear F as [|? ? Ha _]. unfold code_ok in Ha. cbn [length pack unpack].
-    replace ((a + 240) / 16) with 15 by (symmetry; apply Z.div_unique with a; lia). cbn [Z.eqb Pos.eqb].
+    replace ((a + 240) / 16) with 15 by (apply Z.div_unique with a; lia). cbn [Z.eqb Pos.eqb].
     replace ((a + 240) mod 16) with a by (apply Z.mod_unique with 15; lia). reflexivity.
   - inversion_clear F as [|? ? Ha F1]. inversion_clear F1 as [|? ? Hb F2]. unfold code_ok in Ha, Hb. cbn [length pack unpack].
     rewrite (IH F2). cbn [option_map].
